@@ -1159,6 +1159,9 @@ class PlainQuantity(Generic[MagnitudeT], PrettyIPython, SharedRegistryObject):
         except TypeError:
             return NotImplemented
         else:
+            # Raises ValueError for an exponent that belongs to another registry.
+            self._check(other)
+
             if not self._ok_for_muldiv:
                 raise OffsetUnitCalculusError(self._units)
 
@@ -1220,6 +1223,9 @@ class PlainQuantity(Generic[MagnitudeT], PrettyIPython, SharedRegistryObject):
         except TypeError:
             return NotImplemented
         else:
+            # Raises ValueError for an exponent that belongs to another registry.
+            self._check(other)
+
             if not self._ok_for_muldiv:
                 raise OffsetUnitCalculusError(self._units)
 
